@@ -345,5 +345,6 @@ theorem R_evalStep (impl : FmtImpl) (cfg : Cfg) {rec rec' : Rec} (hrec : ∀ i s
     · exact R_withScopeOpt H _ (R_schemaBody H impl cfg hrec ..)
     · exact R_crashG H _
   · exact R_crashG H _
+  · exact R_crashG H _
 
 end JS
